@@ -705,4 +705,114 @@ example :
       [some (.int 1), some (.int 2), some (.int 3)] := by
   decide +kernel
 
+
+/-! ## WHEN the arguments of `while` are evaluated -/
+
+/-- the iterations read the decorator's configuration only for `stop` (`max`, `sleep`, `errorOnMax` reach
+    them as the values computed up front): two configurations with the same `stop` iterate identically -/
+theorem whileIter_reads_only_stop (cfg cfg' : WhileCfg) (hstop : cfg.stop = cfg'.stop) (fr : Frame) (inner : Frame → Body)
+    (max : Option Nat) (sleep : Num) (eom : Bool) (fuel k : Nat) (s : St) :
+    whileIter cfg fr inner max sleep eom fuel k s = whileIter cfg' fr inner max sleep eom fuel k s := by
+  induction fuel generalizing k s with
+  | zero => rfl
+  | succ n ih =>
+    unfold whileIter
+    simp only [hstop, ih]
+
+/-- **`errorOnMax` is what it evaluates to when the loop STARTS.** If the expression gives `eom` on the
+    state in which `while_loop` is entered (`whileCounter := 0`), the whole loop - every iteration, the
+    decision about the loop-exhausted error at its end - is the loop with the LITERAL `errorOnMax: eom`
+    declared: for every inner body whatsoever, so whatever the body does afterwards to the keys the
+    expression was computed from (flip them, delete them), and however the loop ends. -/
+theorem while_errorOnMax_is_its_value_at_loop_start (cfg : WhileCfg) (fr : Frame) (inner : Frame → Body) (fuel : Nat)
+    (s : St) (eom : Bool)
+    (heom : fmtB { s with ctx := Ctx.set s.ctx "whileCounter" (.int 0) } cfg.errorOnMax = .ok eom) :
+    whileLoop cfg fr inner fuel s = whileLoop { cfg with errorOnMax := .bool eom } fr inner fuel s := by
+  have hlit : fmtB { s with ctx := Ctx.set s.ctx "whileCounter" (.int 0) } (.bool eom) = .ok eom := by
+    cases eom <;> rfl
+  unfold whileLoop
+  simp only [heom, hlit]
+  split
+  · rfl
+  · split
+    · rfl
+    · split
+      · exact whileIter_reads_only_stop cfg { cfg with errorOnMax := .bool eom } rfl fr inner _ _ _ _ _ _
+      · split
+        · rfl
+        · split
+          · rfl
+          · exact whileIter_reads_only_stop cfg { cfg with errorOnMax := .bool eom } rfl fr inner _ _ _ _ _ _
+
+/-- **An argument that cannot be resolved when the loop starts: nothing iterates.** `errorOnMax`, then
+    `sleep`, then `max` are evaluated on the entry state before the first iteration; the first one that
+    fails is the loop's result - the same for EVERY inner body (it never runs), whether or not `stop`
+    would have become true, whether or not the body would have created the missing key. -/
+theorem while_unresolvable_argument_no_iteration (cfg : WhileCfg) (fr : Frame) (inner inner' : Frame → Body)
+    (fuel : Nat) (s : St) (x : Exc) (hdecl : (cfg.stop.isNone && cfg.max.isNone) = false) :
+    let s0 : St := { s with ctx := Ctx.set s.ctx "whileCounter" (.int 0) }
+    (fmtB s0 cfg.errorOnMax = .error x → whileLoop cfg fr inner fuel s = raiseExc s0 x) ∧
+    (∀ eom, fmtB s0 cfg.errorOnMax = .ok eom → fmtFloat s0 cfg.sleep = .error x →
+        whileLoop cfg fr inner fuel s = raiseExc s0 x) ∧
+    (∀ eom sl m, fmtB s0 cfg.errorOnMax = .ok eom → fmtFloat s0 cfg.sleep = .ok sl → cfg.max = some m →
+        fmtInt s0 m = .error x → whileLoop cfg fr inner fuel s = raiseExc s0 x) ∧
+    ((∃ y, fmtB s0 cfg.errorOnMax = .error y ∨ fmtFloat s0 cfg.sleep = .error y ∨
+        (∃ m, cfg.max = some m ∧ fmtInt s0 m = .error y)) →
+      whileLoop cfg fr inner fuel s = whileLoop cfg fr inner' fuel s) := by
+  intro s0
+  refine ⟨?_, ?_, ?_, ?_⟩
+  · intro h
+    unfold whileLoop
+    simp only [hdecl, Bool.false_eq_true, if_false]
+    simp only [s0] at h
+    simp only [h]
+    rfl
+  · intro eom h1 h2
+    unfold whileLoop
+    simp only [hdecl, Bool.false_eq_true, if_false]
+    simp only [s0] at h1 h2
+    simp only [h1, h2]
+    rfl
+  · intro eom sl m h1 h2 hm h3
+    unfold whileLoop
+    simp only [hdecl, Bool.false_eq_true, if_false]
+    simp only [s0] at h1 h2 h3
+    simp only [h1, h2, hm, h3]
+    rfl
+  · rintro ⟨y, h⟩
+    unfold whileLoop
+    simp only [hdecl, Bool.false_eq_true, if_false]
+    simp only [s0] at h
+    rcases h with h | h | ⟨m, hm, h⟩
+    · simp only [h]
+    · cases h1 : fmtB { s with ctx := Ctx.set s.ctx "whileCounter" (.int 0) } cfg.errorOnMax with
+      | error z => rfl
+      | ok eom => simp only [h]
+    · cases h1 : fmtB { s with ctx := Ctx.set s.ctx "whileCounter" (.int 0) } cfg.errorOnMax with
+      | error z => rfl
+      | ok eom =>
+        cases h2 : fmtFloat { s with ctx := Ctx.set s.ctx "whileCounter" (.int 0) } cfg.sleep with
+        | error z => rfl
+        | ok sl => simp only [hm, h]
+
+/-- a logging body that flips / creates the key `strict` the `errorOnMax` expression reads -/
+def flipStrict (v : Val) : Frame → Body := fun fr s =>
+  ({ s with ctx := Ctx.set s.ctx "strict" v, trace := s.trace ++ [itemEvent (Ctx.get? s.ctx "whileCounter") fr.forI] }, .ok)
+
+/-- hypotheses satisfiable, conclusions on concrete loops: `errorOnMax: '{strict}'` declared false at loop
+    start, the body sets `strict` to true: two iterations, NO error; declared true, the body sets it to
+    false: the error; `strict` missing at loop start: KeyNotInContextError and no iteration, although the
+    body would have created it and `stop` would have ended the loop. -/
+example :
+    let cfg : WhileCfg := { max := some (.int 2), errorOnMax := .str "{strict}" }
+    let s (v : Val) : St := { ctx := [("strict", v)] }
+    fmtB { s (.bool false) with ctx := Ctx.set (s (.bool false)).ctx "whileCounter" (.int 0) } cfg.errorOnMax = .ok false ∧
+    (whileLoop cfg {} (flipStrict (.bool true)) 10 (s (.bool false))).2 = .ok ∧
+    (whileLoop cfg {} (flipStrict (.bool true)) 10 (s (.bool false))).1.trace.length = 2 ∧
+    (whileLoop cfg {} (flipStrict (.bool false)) 10 (s (.bool true))).2 =
+      .err ⟨0, "pypyr.errors.LoopMaxExhaustedError", "~while loop reached max"⟩ false ∧
+    (let r := whileLoop { cfg with stop := some (.bool true) } {} (flipStrict (.bool true)) 10 {}
+     r.1.trace = [] ∧ (match r.2 with | .err e _ => e.name == "pypyr.errors.KeyNotInContextError" | _ => false) = true) := by
+  decide +kernel
+
 end Pypyr.C05
